@@ -6,6 +6,7 @@ from gen import SeqGen
 from props.c20 import _same_arrays
 
 ID = "C18"
+HEAP_SUMMARY = True      # end every program with the reference-level observation (BB.Model.Heap vs id() walk)
 LEAN_MODULE = "BB.Properties.C18"
 QUICK_N = 120
 THOROUGH_N = 2500
